@@ -64,7 +64,7 @@ def build(case):
         nd = rng.choice([0, 0, 1, 1, 2, 3])
         dimmed = None
         if rng.random() < (0.5 if nd <= 1 else 0.85):
-            dimmed = [rng.choice([1, 3, 5, 10, 12]) for _ in range(nd)]
+            dimmed = [rng.choice([0, 1, 3, 5, 10, 12, 255]) for _ in range(nd)]
         npos = rng.choice([1, 1, 2, 2, 3])
         poss = rng.sample(POSITIONS, npos)
         if rng.random() < 0.8 and not (set(poss) & {"target", "expr", "print", "fnarg", "subscript", "fnarg_conv"}):
